@@ -339,7 +339,16 @@ func (s *Session) Keys() []any {
 	if s.data == nil {
 		return []any{}
 	}
-	return s.data.Keys()
+	// The absolute deadline lives in the data but is no key of the application: a handler that
+	// empties the session key by key must not remove it.
+	all := s.data.Keys()
+	keys := all[:0]
+	for _, k := range all {
+		if k != absExpirationKey {
+			keys = append(keys, k)
+		}
+	}
+	return keys
 }
 
 // SetIdleTimeout used when saving the session on the next call to `Save()`.
